@@ -15,7 +15,7 @@ func shorthandRanges(eco string) []string {
 	case "composer":
 		return []string{"^{d}.{d}.{d}", "^0.{d}.{d}", "^0.0.{d}", "^{d}.{d}", "^0.{d}", "~{d}.{d}", "~{d}.{d}.{d}", "{d}.{d}.*", "{d}.*", "*", "{d}.{d}.{d} - {d}.{d}.{d}", "{d}.{d}.{d}", "^{d}.{d}.{d}-{a}{a}{a}{a}{d}", "{d}.{d}.x"}
 	case "conan":
-		return []string{"~{d}.{d}", "~{d}.{d}.{d}", "~{d}", "^{d}.{d}.{d}", "^0.{d}.{d}", "^0.0.{d}", "^{d}.{d}", "{d}.{d}.{d}", "*"}
+		return []string{"~{d}.{d}", "~{d}.{d}.{d}", "~{d}", "^{d}.{d}.{d}", "^0.{d}.{d}", "^0.0.{d}", "^{d}.{d}", "{d}.{d}.{d}"}
 	case "gem":
 		return []string{"~> {d}.{d}.{d}", "~> {d}.{d}", "~> {d}", "~>{d}.{d}", "~> {d}.{d}.{d}.{d}", "{d}.{d}.{d}", "~> {d}.{d}.{l}{l}{d}"}
 	case "hex":
